@@ -1,6 +1,5 @@
 From Coq Require Import Extraction ExtrOcamlBasic.
 From Mamba Require Import Codec.Model Codec.Spec.
 Extraction Language OCaml.
-Extraction "model.ml" graph6_encode graph6_decode sparse6_encode sparse6_decode
-  multicode_encode multicode_decode multicode_decode_multiple prufer_encode prufer_decode
+Extraction "model.ml" graph6_encode graph6_decode sparse6_encode sparse6_decode enc_size
   g6_spec g6_spec_decode s6_spec_decode.
